@@ -644,6 +644,10 @@ func main() {
 	if vacuous != "" {
 		die2("vacuity guard: the batch did not reach%s — not claiming a pass", vacuous)
 	}
+	if *tier == "thorough" {
+		// the thorough tier also proves the harness deterministic (exit 2 on any mismatch)
+		selftest(bin, baseEnv, tmpDir, id, seed, 32)
+	}
 	fmt.Printf("OK property=%s held on everything explored\n", id)
 }
 
